@@ -150,8 +150,39 @@ fn confirm(hint: usize, ops: &[KOp], mon: &KMon) -> bool {
     run_history::<KTree>(hint, ops, mon, &mut scratch, u64::MAX - 1).is_err()
 }
 
+/// the operation alphabet the closure applies at one state, in a fixed order
+fn state_ops(ex: &KeyExec<KTree>, t: i32, u: i32, r: i32, keys: &[i32], do_export: bool) -> Vec<KOp> {
+    let mut ops: Vec<KOp> = Vec::with_capacity(64);
+    for &k in keys {
+        if !ex.model.iter().any(|e| e.0 == k && e.1 > t) {
+            for d in 0..=r {
+                ops.push(KOp::Ins { k, exp: t + d, t });
+            }
+        }
+    }
+    for p in 0..=2 * u {
+        ops.push(KOp::Get { t, k: p });
+        ops.push(KOp::Fl { t, k: p });
+        ops.push(KOp::Fle { t, k: p });
+        for mode in 0..3u8 {
+            ops.push(KOp::Fleb { t, k: p, mode });
+        }
+    }
+    ops.push(KOp::Empty);
+    ops.push(KOp::Clear);
+    if do_export {
+        for e in 0..=r + 1 {
+            ops.push(KOp::Export { t: t + e });
+        }
+    }
+    ops
+}
+
 pub fn suite_key_closure(cfg: &Cfg, rep: &mut Report) {
-    let mon = KMon::from_list(cfg.str_or("mon", "all"));
+    let judge = KMon::from_list(cfg.str_or("mon", "all"));
+    // --emit 1 --only <(set index << 40) | state> --seq <n>: print the explicit witness instead
+    let emit_for = if cfg.emit { cfg.only.map(|h| ((h >> 40) as usize, (h & 0xFF_FFFF_FFFF) as u32, cfg.num("seq", 0) as usize)) } else { None };
+    let mon = if emit_for.is_some() { KMon::none() } else { judge };
     // parameter sets; a shard takes those with index % nshards == shard
     let sets: Vec<(i32, i32, usize)> = {
         let mut v = Vec::new();
@@ -165,11 +196,16 @@ pub fn suite_key_closure(cfg: &Cfg, rep: &mut Report) {
         v
     };
     let max_states = cfg.num("max_states", 400_000) as usize;
-    let do_export = mon.export || mon.capacity;
+    let do_export = judge.export || judge.capacity;
     let mut all_exhaustive = true;
     for (si, &(u, r, hint)) in sets.iter().enumerate() {
-        if si as u64 % cfg.nshards != cfg.shard {
+        if emit_for.is_none() && si as u64 % cfg.nshards != cfg.shard {
             continue;
+        }
+        if let Some((want_set, _, _)) = emit_for {
+            if want_set != si {
+                continue;
+            }
         }
         let hist_base = (si as u64) << 40;
         let mut nodes: Vec<Node> = vec![Node { parent: 0, op: KOp::Empty }];
@@ -185,28 +221,17 @@ pub fn suite_key_closure(cfg: &Cfg, rep: &mut Report) {
             let mut next: Vec<(u32, KeyExec<KTree>, i32)> = Vec::new();
             for (idx, ex, t) in frontier.iter() {
                 let (idx, t) = (*idx, *t);
-                // operation alphabet at this state
-                let mut ops: Vec<KOp> = Vec::with_capacity(64);
-                for &k in &keys {
-                    if !ex.model.iter().any(|e| e.0 == k && e.1 > t) {
-                        for d in 0..=r {
-                            ops.push(KOp::Ins { k, exp: t + d, t });
+                let ops = state_ops(ex, t, u, r, &keys, do_export);
+                if let Some((_, want_state, want_seq)) = emit_for {
+                    if idx == want_state {
+                        println!("CTOR hint={}", hint);
+                        for o in path_of(&nodes, idx) {
+                            println!("OP {}", o.line());
                         }
-                    }
-                }
-                for p in 0..=2 * u {
-                    ops.push(KOp::Get { t, k: p });
-                    ops.push(KOp::Fl { t, k: p });
-                    ops.push(KOp::Fle { t, k: p });
-                    for mode in 0..3u8 {
-                        ops.push(KOp::Fleb { t, k: p, mode });
-                    }
-                }
-                ops.push(KOp::Empty);
-                ops.push(KOp::Clear);
-                if do_export {
-                    for e in 0..=r + 1 {
-                        ops.push(KOp::Export { t: t + e });
+                        if let Some(o) = ops.get(want_seq) {
+                            println!("OP {}", o.line());
+                        }
+                        return;
                     }
                 }
                 // tick: no library call, only the clock moves
@@ -216,12 +241,14 @@ pub fn suite_key_closure(cfg: &Cfg, rep: &mut Report) {
                     // a tick is represented in the path by the next operation's time; store a harmless marker op
                     nodes.push(Node { parent: idx, op: KOp::Empty });
                     seen.insert(tick_canon, ni);
-                    let mut c = ex.dup().unwrap();
-                    c.t_last = c.t_last.max(t); // clock value is carried by the state
+                    let c = ex.dup().unwrap();
                     next.push((ni, c, t + 1));
                 }
-                for op in ops {
-                    ctx::set(hist_base | idx as u64, transitions);
+                for (oi, op) in ops.into_iter().enumerate() {
+                    if emit_for.is_some() && matches!(op, KOp::Export { .. } | KOp::Empty) {
+                        continue;
+                    }
+                    ctx::set(hist_base | idx as u64, oi as u64);
                     let mut c = ex.dup().unwrap();
                     transitions += 1;
                     match c.step(&op, &mon, rep) {
@@ -256,6 +283,9 @@ pub fn suite_key_closure(cfg: &Cfg, rep: &mut Report) {
             }
             frontier = next;
             depth += 1;
+        }
+        if emit_for.is_some() {
+            return;
         }
         if truncated {
             all_exhaustive = false;
